@@ -206,10 +206,10 @@ class Arc2D(object):
             origin: A Point2D for the origin around which the arc will
                 be rotated.
         """
-        _a1 = self.a1 + angle
-        _a2 = self.a2 + angle
-        _a1 = _a1 - 2 * math.pi if _a1 > 2 * math.pi else _a1
-        _a2 = _a2 - 2 * math.pi if _a2 > 2 * math.pi else _a2
+        if self.is_circle:  # a full circle remains a full circle
+            return Arc2D(self.c.rotate(angle, origin), self.r)
+        _a1 = (self.a1 + angle) % (2 * math.pi)
+        _a2 = (self.a2 + angle) % (2 * math.pi)
         return Arc2D(self.c.rotate(angle, origin), self.r, _a1, _a2)
 
     def reflect(self, normal, origin):
